@@ -230,9 +230,22 @@ func runC15(c *Ctx) {
 				if fn == nil {
 					continue
 				}
-				calls := AllCalls(fn)
-				sort.SliceStable(calls, func(i, j int) bool { return calls[i].Pos() < calls[j].Pos() })
-				for _, call := range calls {
+				// calls in source order; a call to a new helper stands for the helper's own calls
+				var ordered func(f *ssa.Function, depth int) []ssa.CallInstruction
+				ordered = func(f *ssa.Function, depth int) []ssa.CallInstruction {
+					cs := AllCalls(f)
+					sort.SliceStable(cs, func(i, j int) bool { return cs[i].Pos() < cs[j].Pos() })
+					var out []ssa.CallInstruction
+					for _, call := range cs {
+						if h := call.Common().StaticCallee(); h != nil && depth < 3 && isNewHelper(h) && len(h.Blocks) > 0 {
+							out = append(out, ordered(h, depth+1)...)
+							continue
+						}
+						out = append(out, call)
+					}
+					return out
+				}
+				for _, call := range ordered(fn, 0) {
 					n := CalleeName(call.Common())
 					switch {
 					case strings.HasPrefix(n, "iface:labi.ABI."):
